@@ -167,35 +167,38 @@ theorem checkBlock_ok (st st' : Valid.VState) (blk : Block) (h : Valid.checkBloc
     · cases h
     · split at h
       · cases h
-      · rename_i hcb
-        have hcb : Valid.coinbaseShape cb = true ∧ Valid.txWellFormed cb = true := by
-          cases h1 : Valid.coinbaseShape cb <;> cases h2 : Valid.txWellFormed cb <;> simp_all
+      · -- block-size guard (`maxBlockTxs`)
         split at h
         · cases h
-        · rename_i txids hf
+        · rename_i hcb
+          have hcb : Valid.coinbaseShape cb = true ∧ Valid.txWellFormed cb = true := by
+            cases h1 : Valid.coinbaseShape cb <;> cases h2 : Valid.txWellFormed cb <;> simp_all
           split at h
           · cases h
-          · rename_i u fees hc
-            dsimp only at h
+          · rename_i txids hf
             split at h
-            · simp only [Option.some.injEq] at h
-              obtain ⟨f1, f2, f3, f4⟩ := freshTxids_ok _ _ _ hf hn
-              obtain ⟨c1, c2⟩ := checkTxs_ok _ _ _ _ _ _ hc hu
-              have h0 := txWellFormed_nonzero cb hcb.2
-              rw [← h]
-              refine ⟨c1.append (newOutputs_ok _ _ h0), f1, ?_, ?_, ?_, ?_, ?_⟩
-              · intro tx ht
-                rw [htxs] at ht
-                rcases List.mem_cons.1 ht with ht | ht
-                · subst ht; exact h0
-                · exact (c2 tx ht).1
-              · intro tx ht
-                rw [htxs] at ht
-                exact (c2 tx (by simpa using ht)).2
-              · exact f2
-              · exact f3
-              · exact f4
             · cases h
+            · rename_i u fees hc
+              dsimp only at h
+              split at h
+              · simp only [Option.some.injEq] at h
+                obtain ⟨f1, f2, f3, f4⟩ := freshTxids_ok _ _ _ hf hn
+                obtain ⟨c1, c2⟩ := checkTxs_ok _ _ _ _ _ _ hc hu
+                have h0 := txWellFormed_nonzero cb hcb.2
+                rw [← h]
+                refine ⟨c1.append (newOutputs_ok _ _ h0), f1, ?_, ?_, ?_, ?_, ?_⟩
+                · intro tx ht
+                  rw [htxs] at ht
+                  rcases List.mem_cons.1 ht with ht | ht
+                  · subst ht; exact h0
+                  · exact (c2 tx ht).1
+                · intro tx ht
+                  rw [htxs] at ht
+                  exact (c2 tx (by simpa using ht)).2
+                · exact f2
+                · exact f3
+                · exact f4
+              · cases h
 
 theorem checkChain_ok (chain : List Block) (st st' : Valid.VState) (h : Valid.checkChain chain st = some st')
     (hu : UOk st.utxos) (hn : st.txids.Nodup) :
